@@ -250,6 +250,24 @@ class C03(props.Prop):
                 v.violate('revisit', 'C03:revisit:check-loops:unattributed',
                           'ddSMT\'s own loop checker fired: an input was '
                           'visited twice')
+        # (a') ddmin must stop walking a cycle: its progress measure ends the
+        # outer loop after a round without net reduction, so the same input is
+        # adopted a few times at most (the listed cycles are walked twice)
+        if strat in ('ddmin', 'hybrid'):
+            cnt = {}
+            for w in rec.writes:
+                if _in_ddmin(rec, w) or strat == 'ddmin':
+                    cnt[w['sdig']] = cnt.get(w['sdig'], 0) + 1
+            distinct_steps = len(cnt)
+            worst = max(cnt.values()) if cnt else 0
+            if worst >= 8 and distinct_steps >= 2 and not any(
+                    x['sig'].startswith('C03:revisit:no-op') for x in v.violations):
+                v.violate(
+                    'ddmin-keeps-cycling', 'C03:ddmin-keeps-cycling',
+                    f'ddmin adopted the same input {worst} times: it keeps '
+                    f'walking a cycle of simplifications instead of stopping '
+                    f'after a round without net reduction',
+                    times=worst)
         # (b) bounded liveness
         bound = 20 * len(spec['input']) + 1000
         if len(rec.writes) > bound:
